@@ -51,11 +51,17 @@ int sqfs_xattr_writer_add_kv(sqfs_xattr_writer_t *xwr, const char *key,
 {
 	size_t i, key_index, old_value_index, value_index;
 	sqfs_u64 kv_pair;
+	const char *suffix;
 	char *value_str;
 	int err;
 
 	if (sqfs_get_xattr_prefix_id(key) < 0)
 		return SQFS_ERROR_UNSUPPORTED;
+
+	/* the key is stored without its prefix, with a 16 bit length */
+	suffix = strchr(key, '.');
+	if (suffix != NULL && strlen(suffix + 1) > 0x0FFFF)
+		return SQFS_ERROR_OVERFLOW;
 
 	err = str_table_get_index(&xwr->keys, key, &key_index);
 	if (err)
